@@ -181,7 +181,9 @@ func (r *remoteKeySet) keysFromRemote(ctx context.Context) ([]jose.JSONWebKey, e
 		// This goroutine has exclusive ownership over the current inflight
 		// request. It releases the resource by nil'ing the inflight field
 		// once the goroutine is done.
-		go r.updateKeys(ctx)
+		// The download is shared by all goroutines waiting on this inflight request,
+		// it must not be aborted when the context of the goroutine that happened to start it is cancelled.
+		go r.updateKeys(context.WithoutCancel(ctx))
 		verifPoint(ctx, r, "inflight.create")
 	}
 	inflight := r.inflight
